@@ -346,6 +346,48 @@ def check_shared_default(repo: Repo, rep: Report):
     rep.ok("C13.no-shared-default", "fickling/*", f"{len(repo.functions)} functions scanned; {n} mutable default(s) examined", "")
 
 
+# class-level containers that are registries by design (filled at import, never per pickle)
+CLASS_LEVEL_REGISTRIES = {("fickling.fickle.ConstantOpcode", "ConstantOpcodePriorities"), ("fickling.analysis.Analysis", "ALL")}
+
+
+def check_class_level_state(repo: Repo, rep: Report, rule: str = "C13.no-shared-default", only: Optional[Set[str]] = None):
+    """A mutable object bound at class level is ONE object for every instance.  On the decompile / analysis path, any method
+    that mutates it through `self.<attr>` makes two live objects (two interpreters stepped alternately, an interpreter
+    abandoned half-way, a second pickle analysed later) interfere: answers then depend on history, not on the bytes."""
+    n_cls = n_attr = 0
+    for c in repo.classes.values():
+        if c.module.name not in ("fickling.fickle", "fickling.analysis", "fickling.tracing", "fickling.loader"):
+            continue
+        if only is not None and c.qualname not in only:
+            continue
+        n_cls += 1
+        for attr, v in c.attrs.items():
+            mutable = isinstance(v, (ast.List, ast.Dict, ast.Set, ast.ListComp, ast.DictComp, ast.SetComp)) or (isinstance(v, ast.Call) and (dotted(v.func) or "") in FRESH_CTORS and (dotted(v.func) or "") not in ("tuple", "frozenset"))
+            if not mutable or (c.qualname, attr) in CLASS_LEVEL_REGISTRIES:
+                continue
+            n_attr += 1
+            # shadowed per instance in __init__ ? then the class-level object is only a default nobody shares
+            owners = [k for k in repo.subclasses(c)]
+            shadowed = all(any(isinstance(n, (ast.Assign, ast.AnnAssign)) and any(dotted(t) == f"self.{attr}" for t in store_targets(n)) for n in body_walk(k.method("__init__").node)) for k in owners if k.method("__init__") is not None) and any(k.method("__init__") is not None for k in owners)
+            writers = []
+            for k in owners:
+                for fs in k.methods.values():
+                    for f in fs:
+                        for n in body_walk(f.node):
+                            if isinstance(n, ast.Call) and isinstance(n.func, ast.Attribute) and n.func.attr in MUTATORS and (dotted(base_of(n.func.value)) or "") in (f"self.{attr}", f"cls.{attr}", f"{k.name}.{attr}", f"{c.name}.{attr}"):
+                                writers.append((f, n))
+                            if isinstance(n, (ast.Assign, ast.AugAssign, ast.Delete)):
+                                for t in store_targets(n):
+                                    if isinstance(t, ast.Subscript) and (dotted(base_of(t)) or "") in (f"self.{attr}", f"cls.{attr}", f"{c.name}.{attr}"):
+                                        writers.append((f, n))
+            if writers and not shadowed:
+                f, n = writers[0]
+                rep.bad(rule, c.qualname, f"class-level-mutable:{attr}", f"`{attr} = {src(v)}` is bound at class level and mutated through the instance in {f.qualname} (`{src(n)[:60]}`): every {c.name} shares that one object, so two live instances (or one abandoned half-way) corrupt each other's state", c.module.relpath, v.lineno)
+            else:
+                rep.ok(rule, c.qualname, f"class-level `{attr}` is never mutated through an instance" if not writers else f"class-level `{attr}` is re-bound per instance in __init__", f"{c.module.relpath}:{v.lineno}", nontrivial=False)
+    rep.ok(rule, "fickling/* classes", f"{n_cls} classes on the decompile/analysis path scanned; {n_attr} class-level mutable attribute(s) besides the import-time registries", "", nontrivial=False)
+
+
 def check_registry(repo: Repo, rep: Report):
     ab = repo.cls("fickling.analysis.Analysis")
     defining = sorted({c.module.name for c in repo.subclasses(ab, strict=True)})
@@ -453,13 +495,15 @@ def run(rep: Report, tier: str):
     rep.rule("C13.read-only-queries", "observers write no shared state", 25)
     rep.rule("C13.cache-atomic", "caches are assigned only completely computed values", 2)
     rep.rule("C13.no-hash-order", "no ordered output from iterating a set", 1)
-    rep.rule("C13.no-shared-default", "no mutable default argument is stored or mutated", 1)
+    rep.rule("C13.no-shared-default", "no mutable default argument is stored or mutated; no class-level mutable object is mutated through instances", 1)
     rep.rule("C13.registry-complete", "the analysis registry is complete after importing the package", 2)
     rep.rule("C13.no-process-state", "no read-only query changes a process-wide setting (recursion limit, environment, cwd, filters)", 1)
-    check_one_shot(repo, rep)
-    check_read_only(repo, rep)
+    # rules that do not need the opcode summaries first (they stand even if a handler defeats the abstract interpreter)
     check_cache_atomic(repo, rep)
     check_hash_order(repo, rep)
     check_shared_default(repo, rep)
+    check_class_level_state(repo, rep)
     check_registry(repo, rep)
     check_process_state(repo, rep)
+    check_one_shot(repo, rep)
+    check_read_only(repo, rep)
